@@ -90,7 +90,7 @@ BecomeFollower(s, t) ==
 BecomeLeader(s, n) ==
   [s EXCEPT !.role = "L",
             !.next = [p \in Node |-> LastIdx(s.log) + 1],
-            !.match = [p \in Node |-> 0],
+            !.match = IF "MatchNotReset" \in W THEN s.match ELSE [p \in Node |-> 0],
             !.log = AppendTo(s.log, <<Entry(s.term, "noop", Nil)>>)]
 
 \* becomeCandidate + start of a real vote round
